@@ -46,6 +46,9 @@ json world8()
 	fs.push_back(fs_file("/inc/unterminated.conf", "a = 3\ns = \"never closed\n"));
 	fs.push_back(fs_file("/inc/incomment.conf", "a = 4 /* never closed\n"));
 	fs.push_back({{"path", "/inc/dir"}, {"kind", "dir"}});
+	// the callbacks of these run while an included file is open (re-entry probes)
+	fs.push_back(fs_file("/inc/reentry.conf", "b = on\nfn(\"x\")\nvi = 6\nsl += {inner}\n"));
+	fs.push_back(fs_file("/inc/reentry2.conf", "f = 0.5\ninclude(\"/inc/reentry.conf\")\nl += 3\n"));
 	json w;
 	w["fs"] = fs;
 	w["env"] = {{"X", "1"}};
@@ -256,6 +259,22 @@ json generate(uint64_t seed, uint64_t idx, int tier)
 		ps["appendprobe"] = 1;
 		steps.push_back(ps);
 	}
+	// re-entry: while a text is being parsed, a callback (application code) releases another context, or creates,
+	// fills and releases a temporary one; neither may change what this parse does
+	if (r.chance(1, 3)) {
+		int cl = (int)r.below(nclients), c = (int)r.below(nctx);
+		steps.push_back(step(cl, "init", 7));
+		static const char *texts[] = {"fn(\"x\")\na = 41\nl += 9\ns = \"after\"\n", "b = on\nvi = 8\na = 42\nsl += {w}\n", "a = 40\ninclude(\"/inc/reentry.conf\")\ns = \"after\"\n",
+					      "include(\"/inc/reentry2.conf\")\na = 44\n"};
+		json ps = parse_step(cl, c, r.chance(1, 4) ? "fp" : "buf", texts[r.below(4)]);
+		static const char *acts[] = {"free_other", "nested_parse", "parse_other"};
+		ps["cbact"] = acts[r.below(3)];
+		ps["cbact_at"] = 1;
+		ps["cbact_c"] = 7;
+		ps["reentry"] = 1;
+		steps.push_back(ps);
+		steps.push_back(parse_step(cl, c, "buf", "f = 2.25\n"));
+	}
 	plan["steps"] = steps;
 	plan["params"] = {{"history", kinds}, {"clients", nclients}, {"probes", probe_steps}};
 	return plan;
@@ -449,6 +468,46 @@ JudgeOut judge(const json &plan)
 				out.viol.push_back({"O-append", "'" + name + " += ...' parsed into a re-used context must append to its current values [" + before + "] but the option now holds [" + after + "]: an earlier (aborted) parse left a trace", nullptr});
 		}
 
+	// ---- O-reentry: what a callback does to ANOTHER context while this one is being parsed does not change this parse
+	if (out.viol.empty())
+		for (size_t i = 0; i < plan["steps"].size(); i++) {
+			const json &st = plan["steps"][i];
+			if (!st.value("reentry", 0) || !st.contains("cbact"))
+				continue;
+			json quiet = plan;
+			for (const char *k : {"cbact", "cbact_at", "cbact_c"})
+				quiet["steps"][i].erase(k);
+			RunResult qr = execute(quiet);
+			add_exec_counters(out, qr);
+			bool acted = false;
+			for (auto &o : base.ops)
+				if (o.index == (int)i)
+					for (auto &c : o.cbs)
+						if (c.compare(0, 4, "act ") == 0)
+							acted = true;
+			if (!acted)
+				continue;
+			out.k.add("probe.callback_acted_on_another_context");
+			size_t j = 0;
+			for (auto &o : base.ops) {
+				if (o.index < (int)i || o.client != st.value("cl", 0) || o.ctx != st.value("c", 0) || o.op == "end")
+					continue;
+				while (j < qr.ops.size() && qr.ops[j].index != o.index)
+					j++;
+				if (j >= qr.ops.size())
+					break;
+				if (outcome(o) != outcome(qr.ops[j])) {
+					out.viol.push_back({"O-reentry:" + st["cbact"].get<std::string>(), "op #" + std::to_string(o.index) + " (" + o.op + "): a callback of this parse acted on another context (" + st["cbact"].get<std::string>() +
+												   ") and the outcome for THIS context changed\n  with the action:    " + outcome(o).substr(0, 500) + "\n  without the action: " +
+												   outcome(qr.ops[j]).substr(0, 500),
+							    nullptr});
+					break;
+				}
+			}
+			if (!out.viol.empty())
+				break;
+		}
+
 	// ---- O-trace: a text / value that fails its range check leaves no trace in the context it was meant for
 	if (out.viol.empty())
 		for (size_t i = 0; i < plan["steps"].size(); i++) {
@@ -531,7 +590,7 @@ Property P = [] {
 		 "distinct = distinct event-kind sequences (the history), all non-trivial";
 	p.assumptions = {"the probe set and event texts are fixed by the generator; outcomes compared are return code, diagnostics (file,line) and the canonical dump",
 			 "O-scrub resets the scanner object's .data/.bss, cfg_yylval and errno between API calls; a correct library cannot observe that"};
-	p.probes = {"parse_begun_outside_INITIAL", "parse_failed_inside_included_file", "two_clients_interleaved", "rejected_probe_into_reused_context", "append_into_reused_context", "range_failure_trace_checked"};
+	p.probes = {"parse_begun_outside_INITIAL", "parse_failed_inside_included_file", "two_clients_interleaved", "rejected_probe_into_reused_context", "append_into_reused_context", "range_failure_trace_checked", "callback_acted_on_another_context"};
 	p.components = {{"confuse.c", "real"}, {"lexer.l (flex 2.6.4 generated)", "real"}, {"glibc stdio/strtol/strtod", "real"}, {"allocator", "stub: accounting wrappers over the real heap"},
 			{"file namespace (fopen/stat)", "stub: in-memory tree"}, {"getenv", "stub: simulated environment"}, {"user callbacks", "stub: simulator parties"}, {"exit/abort/assert", "stub: recorded and unwound"}};
 	p.quick_seconds = 20;
